@@ -23,7 +23,7 @@ WIDTHS = ('int8', 'int16', 'int32', 'int64')
 
 
 def gen(rng, tier):
-    n = 110 if tier == 'quick' else 3000
+    n = G.budget(110) if tier == 'quick' else 3000
     for _ in range(n):
         labs, akind = G.alphabet(rng, k=rng.randint(2, 4), kind=rng.choice(['zero', 'one', 'gapped', 'negative', 'mixed', 'minus1']))
         lag = rng.choice([1, 1, 2])
